@@ -30,20 +30,20 @@ Proof. intros Hg. induction l as [|a l IH]; intros s; cbn [fold_left]; [reflexiv
 Lemma inuse_end_driver h s : inuse (end_driver h s) = inuse s.
 Proof. unfold end_driver. cbn [inuse set]. rewrite !inuse_fold; reflexivity. Qed.
 
-Definition is_start (e : ev) : bool := match e with Start _ _ => true | _ => false end.
+Definition is_start (e : ev) : bool := match e with Start _ _ | Alloc _ _ => true | _ => false end.
 
 Lemma len_step s e : is_start e = false -> length (ops (step s e)) = length (ops s).
 Proof.
-  intros He. destruct e; try discriminate; unfold step;
+  intros He. destruct e; try discriminate; unfold step, enqueue;
   repeat first [ reflexivity | rewrite len_end_driver | rewrite len_drop_entry | rewrite upd_length | progress cbn [ops set updop] | progress cbv zeta
                | match goal with |- context [match ?x with _ => _ end] => destruct x end ].
 Qed.
 Lemma last_step s e : is_start e = false -> last (step s e) = last s.
-Proof. intros He. destruct e; try discriminate; unfold step; projt last last_end_driver last_drop_entry. Qed.
+Proof. intros He. destruct e; try discriminate; unfold step, enqueue; projt last last_end_driver last_drop_entry. Qed.
 Lemma In_rem_sub i a l : In i (rem a l) -> In i l. Proof. rewrite In_rem. tauto. Qed.
 Lemma inuse_step s e : is_start e = false -> forall i, In i (inuse (step s e)) -> In i (inuse s).
 Proof.
-  intros He i. destruct e; try discriminate; unfold step;
+  intros He i. destruct e; try discriminate; unfold step, enqueue;
   repeat first [ (intros H; exact H) | rewrite inuse_end_driver | rewrite inuse_drop_entry | progress cbn [inuse set updop] | progress cbv zeta
                | (intros H; apply In_rem_sub in H; revert H)
                | match goal with |- context [match ?x with _ => _ end] => destruct x end ].
@@ -61,22 +61,22 @@ Proof. constructor; cbn; [reflexivity|intros i []|]. intros o c H. unfold getop 
 Lemma len_step_le s e : (length (ops (step s e)) <= S (length (ops s)))%nat.
 Proof.
   destruct (is_start e) eqn:He; [|rewrite len_step by assumption; lia].
-  destruct e; try discriminate. unfold step. destruct (next_msgid (last s) (inuse s)); [|lia|lia].
-  destruct (is_running s); cbn [ops set]; rewrite app_length; cbn; lia.
+  destruct e; try discriminate; unfold step, alloc; (destruct (next_msgid (last s) (inuse s)); [|lia|lia]).
+  all: try destruct (is_running s); cbn [ops set]; rewrite app_length; cbn; lia.
 Qed.
 
+Lemma nth_app_last (s : st) (cn : cop) o c : nth_error (ops s ++ [cn]) o = Some c -> getop s o = Some c \/ (o = length (ops s) /\ c = cn).
+Proof. intros H. unfold getop. destruct (Nat.ltb_spec o (length (ops s))); [rewrite nth_error_app1 in H by assumption; now left|].
+  rewrite nth_error_app2 in H by assumption. destruct (o - length (ops s))%nat as [|[|n]] eqn:E; cbn in H; try discriminate. right. split; [lia|congruence]. Qed.
 Lemma J_step s e : keyed s -> J s -> Z.of_nat (length (ops s)) < MAX -> J (step s e).
 Proof.
   intros K Hj Hlt. destruct (is_start e) eqn:He.
-  - destruct e as [k tmo| | | | | | | | | ]; try discriminate. unfold step.
-    rewrite next_msgid_fresh; [| rewrite (j_last s Hj); lia | intros H; apply (j_inuse s Hj) in H; lia].
-    assert (G : forall (cn : cop) o c, nth_error (ops s ++ [cn]) o = Some c -> getop s o = Some c \/ (o = length (ops s) /\ c = cn)).
-    { intros cn o c H. unfold getop. destruct (Nat.ltb_spec o (length (ops s))); [rewrite nth_error_app1 in H by assumption; now left|].
-      rewrite nth_error_app2 in H by assumption. destruct (o - length (ops s))%nat as [|[|n]] eqn:E; cbn in H; try discriminate. right. split; [lia|congruence]. }
-    destruct (is_running s); constructor; cbn [last inuse ops set]; unfold getop; cbn [ops set].
+  - destruct e as [k tmo| | | | | | | | | |k tmo| ]; try discriminate; unfold step, alloc.
+    all: rewrite next_msgid_fresh; [| rewrite (j_last s Hj); lia | intros H; apply (j_inuse s Hj) in H; lia].
+    all: try destruct (is_running s); constructor; cbn [last inuse ops set]; unfold getop; cbn [ops set].
     all: try (rewrite app_length, (j_last s Hj); cbn; lia).
     all: try (intros i [<-|H]; [lia|apply (j_inuse s Hj) in H; lia]).
-    all: intros o c H; apply G in H as [H|[-> ->]]; [exact (j_mids s Hj o c H)|cbn [o_mid set]; rewrite (j_last s Hj); lia].
+    all: intros o c H; apply nth_app_last in H as [H|[-> ->]]; [exact (j_mids s Hj o c H)|cbn [o_mid set]; rewrite (j_last s Hj); lia].
   - pose proof (step_sext s e K) as (_ & Hfw & _). constructor.
     + rewrite last_step, len_step by assumption. apply Hj.
     + intros i H. rewrite last_step by assumption. apply (j_inuse s Hj). now apply (inuse_step s e He).
@@ -110,6 +110,11 @@ Proof.
   assert (o < length (ops (run f evs)))%nat by (apply nth_error_Some; unfold getop in Hc; congruence). lia.
 Qed.
 
+(* ... in particular no two operation records of such a history share an id - whatever the interleaving of the callers' allocations
+   (Alloc), their sends (Enqueue), the driver and the server *)
+Theorem c05_distinct_ids f evs : Z.of_nat (length evs) < MAX -> NoDup (map o_mid (ops (run f evs))).
+Proof. intros H. apply J_NoDup. now apply reachable_J. Qed.
+
 (* C13 for every history of fewer than 2^31 - 1 events on the repaired model, with no further hypothesis *)
 Theorem c13_below_wrap evs : Forall wf_ev evs -> Z.of_nat (length evs) < MAX ->
   quiescent (run repaired evs) = true -> clean (run repaired evs) = true.
@@ -125,7 +130,7 @@ Proof. intros Hg. induction l as [|a l IH]; intros s; cbn [fold_left]; [reflexiv
 Lemma drv_end_driver h s : drv (end_driver h s) = h. Proof. reflexivity. Qed.
 Theorem c11_driver_never_panics s e : fix5 (fx s) = true -> drv s <> EndedPanic -> e <> DrvEnd EndedPanic -> drv (step s e) <> EndedPanic.
 Proof.
-  intros F5 Hs He. destruct e; unfold step; rewrite ?F5;
+  intros F5 Hs He. destruct e; unfold step, alloc, enqueue; rewrite ?F5;
   repeat first [ exact Hs | rewrite drv_end_driver | rewrite ConnLin2.drv_drop_entry | progress cbn [drv set updop] | progress cbv zeta
                | discriminate
                | match goal with
